@@ -60,6 +60,8 @@ type e2eCfg struct {
 	onStart func(r *e2eRun)
 	// maximum wall time before the harness gives up (hang detection)
 	deadline time.Duration
+	// how long to wait for the client to recognise the trigger (default 10 s)
+	startWait time.Duration
 }
 
 type e2eRun struct {
@@ -90,6 +92,7 @@ type e2eResult struct {
 	clientDur    time.Duration
 	serverDur    time.Duration
 	leaked       []string // goroutines of this transfer still alive after a grace period
+	started      bool     // the client recognised the trigger
 }
 
 var e2eBinDir = func() string {
@@ -324,7 +327,10 @@ func runTransfer(cfg e2eCfg, src []string, dest string) e2eResult {
 	}()
 
 	// wait for the client to enter the transferring state
-	startDeadline := time.Now().Add(10 * time.Second)
+	if cfg.startWait == 0 {
+		cfg.startWait = 10 * time.Second
+	}
+	startDeadline := time.Now().Add(cfg.startWait)
 	for !filter.IsTransferringFiles() && time.Now().Before(startDeadline) {
 		select {
 		case <-exited:
@@ -335,7 +341,18 @@ func runTransfer(cfg e2eCfg, src []string, dest string) e2eResult {
 	}
 	if filter.IsTransferringFiles() {
 		r.started.Store(true)
+	} else if !filter.IsTransferringFiles() {
+		// the client never recognised a trigger (or the transfer is already over): if the
+		// server is still there after a moment it is waiting for a handshake that will not come
+		select {
+		case <-exited:
+		case <-time.After(700 * time.Millisecond):
+			if !filter.IsTransferringFiles() {
+				cmd.Process.Kill()
+			}
+		}
 	}
+	res.started = r.started.Load()
 	if cfg.onStart != nil {
 		go cfg.onStart(r)
 	}
@@ -343,7 +360,9 @@ func runTransfer(cfg e2eCfg, src []string, dest string) e2eResult {
 	// wait for both sides
 	clientDone := make(chan struct{})
 	go func() {
-		if cfg.upload {
+		if cfg.upload && !res.started {
+			res.uploadErr = fmt.Errorf("harness: the client never started a transfer")
+		} else if cfg.upload {
 			select {
 			case err := <-upCh:
 				res.uploadErr = err
